@@ -44,8 +44,10 @@ type ConcScenario struct {
 	Desc string
 	// MaxExec caps the executions explored for this scenario (0 = none).
 	MaxExec int64
-	Cfg     Config
-	Init    []Op
+	// NoBubble: the execution does not run inside a synctest bubble (engine R).
+	NoBubble bool
+	Cfg      Config
+	Init     []Op
 	Threads [][]Op
 	Extra   map[string]any
 }
@@ -75,7 +77,14 @@ func preemptionsBefore(ds []decision, i int) int {
 // runOne executes the scenario once following prefix, then default choices.
 func (e *Explorer) runOne(prefix []int, parent []decision) *execResult {
 	var res *execResult
-	synctest.Test(e.t, func(t *testing.T) {
+	run := func(f func(t *testing.T)) {
+		if e.sc.NoBubble {
+			f(e.t)
+			return
+		}
+		synctest.Test(e.t, f)
+	}
+	run(func(t *testing.T) {
 		res = e.sc.Exec(t, e.sc, func(d *decision, idx int) int {
 			if idx < len(prefix) {
 				if parent != nil && idx < len(parent) && parent[idx].sig != d.sig {
